@@ -2,6 +2,7 @@ package sim
 
 import (
 	"fmt"
+	"strings"
 
 	"github.com/syndtr/goleveldb/leveldb"
 	"github.com/syndtr/goleveldb/leveldb/iterator"
@@ -294,7 +295,11 @@ func (r *runner) lifeRace() {
 						}
 					case leveldb.ErrNotFound, leveldb.ErrClosed:
 					default:
-						r.viol("closed", "closed:race-get", fmt.Sprintf("Get racing Close returned %v", err))
+						// while Close tears the table cache down a read may
+						// also surface the reader's own "released" error
+						if !strings.Contains(err.Error(), "released") && !strings.Contains(err.Error(), "closed") {
+							r.viol("closed", "closed:race-get", fmt.Sprintf("Get racing Close returned %v", err))
+						}
 					}
 				case "snap":
 					s, err := db.GetSnapshot()
